@@ -40,9 +40,9 @@ manifest = {
     },
     "engines": [{
         "name": "coq-model+correspondence",
-        "path": "coq/ (Coq 8.16 development), harness/ (Python correspondence + search), check (entry point)",
+        "path": "coq/ (Coq 8.16 development), harness/ (Python correspondence + search, harness/translate*.py source translator), check (entry point)",
         "serves_properties": [c["property_id"] for c in checks],
-        "kind_free_text": "machine-checked proof in Coq of theorems about a hand-written Gallina model; model tied to /repo on every run by differential correspondence (vm_compute vs implementation)",
+        "kind_free_text": "machine-checked proof in Coq of theorems about a hand-written Gallina model; model tied to /repo on every run by (1) differential correspondence (the model's executable definitions evaluated with vm_compute vs the implementation on generated inputs and histories) and (2) a fail-closed source translator (harness/translate*.py: 122 functions of lymph re-generated as Gallina from the current source and proved equal to the model for all arguments)",
     }],
     "checks": checks,
     "not_applicable": na,
